@@ -19,9 +19,9 @@ pub enum Case {
 
 const SIGMA: [&str; 18] = ["<", ">", "/", "a", ":", "=", "\"", "'", "&", ";", "#", "x", "!", "-", "[", "]", "?", " "];
 
-const TOKENS: [&str; 38] = [
+const TOKENS: [&str; 39] = [
     "<a", "<p:a", "<q:a", ">", "/>", "</a>", "</b>", "</p:a>", "</q:a>", " k='1'", " k='2'", " p:k='1'", " q:k='1'", " xmlns:p='X'", " xmlns:q='X'", " xmlns:p='Y'", " xmlns='X'", " xml:id='i'", "t", "&amp;", "&#65;", "&#0;",
-    "&#xD800;", "&#+65;", "&", "<!--c-->", "<!--c--->", "<?pi d?>", "<?pi+d?>", "<![CDATA[x]]>", "]]>", "<!DOCTYPE a>", "<!DOCTYPE a []>", "<!DOCTYPE a [<!ENTITY e \"v\">]>", "<?xml version='1.0'?>", "<?xml version='1.1'?>", "<b/>", "&#x+41;",
+    "&#xD800;", "&#+65;", "&", "<!--c-->", "<!--c--->", "<?pi d?>", "<?pi+d?>", "<![CDATA[x]]>", "]]>", "<!DOCTYPE a>", "<!DOCTYPE a []>", "<!DOCTYPE a [<!ENTITY e \"v\">]>", "<?xml version='1.0'?>", "<?xml version='1.1'?>", "<b/>", "&#x+41;", "<![CDATA[]]>",
 ];
 
 /// reasons of the reference recogniser that the statement lists as "must be rejected"
@@ -395,7 +395,7 @@ pub fn run(tier: Tier) -> i32 {
         "evaluations": stats.evals,
         "distinct_nontrivial": total,
         "samples": samples,
-        "rule": format!("(a) every string of length <= {} over 18 markup symbols; (b) every sequence of <= {} fragments from a 38-item token menu (tags with synonymous prefixes, duplicate attributes / declarations, references incl. &#0; &#xD800; &#+65;, comments, PIs, CDATA, ]]>, DOCTYPEs, XML declarations 1.0 / 1.1); (c) every single-character deletion / duplication / replacement / insertion / truncation and 12 structural edits of the default spellings of the C02 documents (thorough: also of their one-deviation spellings); (d) every byte string of length <= {} and 8 BOMs x 40 encoding labels x 3 bodies; each to parse and parse_fragment (text) / parse_bytes; oracle: no panic; texts the reference recogniser XmlRead classifies ill-formed for a reason in the property's catalogue are rejected; whatever is accepted equals the reference reader's tree (when it has one), passes validate_well_formed_document, has unique attributes / declarations, serialises, and reparses equal; distinct = number of inputs", l, tl, bl),
+        "rule": format!("(a) every string of length <= {} over 18 markup symbols; (b) every sequence of <= {} fragments from a 39-item token menu (tags with synonymous prefixes, duplicate attributes / declarations, references incl. &#0; &#xD800; &#+65;, comments, PIs, CDATA, ]]>, DOCTYPEs, XML declarations 1.0 / 1.1); (c) every single-character deletion / duplication / replacement / insertion / truncation and 12 structural edits of the default spellings of the C02 documents (thorough: also of their one-deviation spellings); (d) every byte string of length <= {} and 8 BOMs x 40 encoding labels x 3 bodies; each to parse and parse_fragment (text) / parse_bytes; oracle: no panic; texts the reference recogniser XmlRead classifies ill-formed for a reason in the property's catalogue are rejected; whatever is accepted equals the reference reader's tree (when it has one), passes validate_well_formed_document, has unique attributes / declarations, serialises, and reparses equal; distinct = number of inputs", l, tl, bl),
     });
     ctx.finish(stats, cov, vec!["XmlRead answers Unknown for anything it does not positively classify; only IllFormed(reason in catalogue) creates an obligation".into(), "a process abort (stack overflow, allocation failure) would surface as a machinery error of the driver, never as a pass".into()])
 }
